@@ -18,14 +18,12 @@ type Handle struct {
 	// LookupFn, if set, performs this instance's by-name lookups from inside its
 	// initialization callback (installed by the engine).
 	LookupFn func(h *Handle) error
-	looked   bool
 }
 
 // lookups performs the instance's by-name lookups; a lookup error is returned from the
 // initialization callback (the component cannot initialise without what it looked up).
 func (h *Handle) lookups() error {
-	if h.LookupFn != nil && !h.looked && !h.C.Parallel {
-		h.looked = true
+	if h.LookupFn != nil && !h.C.Parallel {
 		return h.LookupFn(h)
 	}
 	return nil
